@@ -2079,6 +2079,8 @@ static int32_t parse_XTA(ParserBuilder *aParserBuilder,
 
     // Reset position tracking
     tracker.setPath(ch, xpath);
+    // bison keeps the location of the last token of the previous parse: start from the beginning of this text instead
+    yylloc = position_t(tracker.position, tracker.position);
 
     // Parse string
     int res = 0;
@@ -2103,6 +2105,7 @@ static int32_t parseProperty(ParserBuilder *aParserBuilder, const std::string& x
 
     // Reset position tracking
     tracker.setPath(ch, xpath);
+    yylloc = position_t(tracker.position, tracker.position);
 
     return utap_parse() ? -1 : 0;
 }
